@@ -84,18 +84,28 @@ def run(ctx):
                        "property search 'rt' on the implementation: decode with both decoders = tree and consumes everything, |br| <= |classic|, second run in a differently "
                        "populated allocator gives the same bytes, is_canonical_serialization, both length probes = length, re-serialization of the decoded tree = same bytes.")
     ctx.assumptions.append("C17 serializer-level theorems assume the tree hash is injective (sha256 collision resistance); shown satisfiable by C17_premise_satisfiable")
-    ctx.proofs()
+    # one build of the Coq cone for both statement files (the thorough tier rebuilds from clean)
+    ctx.proofs(extra_targets=["Props/C29br.vo", "Pins/C29br.vo"])
+    ok2, res, raw = vlib.coq_assumptions("Props/C29br.v")
+    if not ok2:
+        ctx.broken.append(("proof", "Props/C29br.v", "Print Assumptions output could not be matched:\n" + raw[-2000:]))
+    for name, ax in res.items():
+        ctx.obligations += 1
+        ctx.theorems[name] = ax
+        if [a for a in ax if a not in vlib.AXIOM_ALLOWLIST]:
+            ctx.broken.append(("axioms", name, "depends on non-allow-listed axioms: %s" % ax))
+        else:
+            ctx.discharged += 1
     if not ctx.build():
         return
     # 1. model vs implementation, byte for byte (extracted SHA-256 is slow: keep these small)
-    small = gen_trees(ctx, ctx.scale(500, 6000), 40)
-    small = [t for t in small if gen_br.tree_size(t) <= 120] + boundary_trees(r) + tie_trees(r, ctx.scale(60, 600))
+    small = gen_trees(ctx, ctx.scale(300, 2500), 40)
+    small = [t for t in small if gen_br.tree_size(t) <= 120] + boundary_trees(r) + tie_trees(r, ctx.scale(40, 200))
     cases = ["ser " + gen.tt(t) for t in small]
     corr_par.correspond(ctx, "br", cases, name="ser_br", nontrivial=lambda c, a, b: False)
     # 1b. the size-limited serializer (back-reference half of C29, Props/C29br.v): every limit
     #     0..len+1 of a few small trees, model vs implementation, and against the statement
-    ctx.proofs("Props/C29br.v", extra_targets=["Pins/C29br.vo"])
-    lim_trees = [t for t in small if gen_br.tree_size(t) <= 25][:ctx.scale(25, 300)]
+    lim_trees = [t for t in small if gen_br.tree_size(t) <= 25][:ctx.scale(15, 100)]
     full = vlib.run_impl("br", ["serhex " + gen.tt(t) for t in lim_trees])
     lcases, expect = [], []
     for t, o in zip(lim_trees, full):
